@@ -60,7 +60,7 @@ type Result struct {
 type Scenario func(r *Run, job *Job)
 
 // needsInventory lists the properties whose scenarios draw hold targets from the lock-site inventory.
-var needsInventory = map[string]bool{"C07": true, "C08": true}
+var needsInventory = map[string]bool{"C07": true, "C08": true, "C15": true}
 
 // Scenarios is the registry: property id (or "id/profile") -> scenario.
 var Scenarios = map[string]Scenario{}
